@@ -50,6 +50,7 @@ RecState::RecState() {
         else if (key == "iiscon") { have_iiscon = true; iiscon = parse_ints(is); }
         else if (key == "iiscong") { int g = -1; is >> g; have_iiscon = true; iiscon_g[g] = parse_ints(is); }
         else if (key == "throw") is >> throw_in_solve;
+        else if (key == "altsol") is >> n_altsol;
       }
       std::fclose(f);
     }
